@@ -45,6 +45,7 @@ import Pumpkin.Model.Lits
 import Pumpkin.Model.SemMin
 import Pumpkin.Model.RecMin
 import Pumpkin.Model.Propagation
+import Pumpkin.Model.Search
 import Pumpkin.Check.Rup
 import Pumpkin.Check.MaxSat
 import Pumpkin.Check.DrcpCheck
@@ -210,6 +211,38 @@ def fixJudge (st : St) (kind : String) (root : Bool) (start : List (List Int)) (
       | some none => s!"ok fix {kind} exact"
       | some (some md) => if learned then s!"ok fix {kind} learned" else
         s!"FAIL fix {kind} CORR real-conflict-model-none start={showDoms start} model={showDoms md}"
+
+
+/-! the whole search loop (`nlsearch` records): the decisions of a real no-learning solve replayed through
+`Model/Search.lean`; the scripted strategy aborts as soon as the domains at a decision point differ -/
+def domsEqB (a b : List (List Int)) : Bool := domsSub a b && domsSub b a
+
+def scriptStrat : List (List (List Int) × Atom) → List (List Int) → Pumpkin.Pg.Choice (List (List (List Int) × Atom))
+  | [], _ => .done
+  | (s, p) :: rest, cur => if domsEqB cur s then .decide p rest else .abort
+
+def pScriptEntry : P (List (List Int) × Atom) := fun ts => do
+  let (d, ts) ← pList (pList pInt) ts
+  let (p, ts) ← pAtom ts
+  pure ((d, p), ts)
+
+def showOutcome : Pumpkin.Pg.Outcome → String
+  | .sat a => s!"sat {a}"
+  | .unsat => "unsat"
+  | .out => "no-answer(state-mismatch-or-script-exhausted)"
+
+def nlJudge (st : St) (root : Option (List (List Int))) (script : List (List (List Int) × Atom)) (answer : Option (List Int)) : String :=
+  match Pumpkin.Pg.compileAll st.model.doms st.model.cons, Pumpkin.Pg.rootFix st.model.doms st.model.cons with
+  | some ps, some (some d0) =>
+    if (match root with | some r => !domsEqB r d0 | none => false) then s!"FAIL nlsearch CORR root real={showDoms (root.getD [])} model={showDoms d0}"
+    else
+      let out := Pumpkin.Pg.search ps scriptStrat (script.length + 2) script d0 []
+      let expected : Pumpkin.Pg.Outcome := match answer with | some a => .sat a | none => .unsat
+      if out == expected then s!"ok nlsearch exact decisions={script.length}"
+      else s!"FAIL nlsearch CORR real={showOutcome expected} model={showOutcome out} decisions={script.length}"
+  | some _, some none =>
+    if script.isEmpty && answer.isNone then "ok nlsearch root-conflict" else "FAIL nlsearch CORR model-root-conflict"
+  | _, _ => "ok nlsearch not-modelled"
 
 def applyAtom (d : List (List Int)) (p : Atom) : List (List Int) := Pumpkin.AtomRup.assume d p
 
@@ -665,6 +698,32 @@ def respond (st : St) (line : String) : St × Option String :=
         | _ => (st, some "FAIL fix unparsed")
       | _ => (st, some "FAIL fix unparsed")
     | none => (st, some "FAIL fix unparsed")
+  | "nlsearch" :: rest =>
+    match rest with
+    | ["posterr"] =>
+      (st, some (match Pumpkin.Pg.rootFix st.model.doms st.model.cons with
+        | some none => "ok nlsearch posterr"
+        | none => "ok nlsearch not-modelled"
+        | some (some d) => s!"FAIL nlsearch CORR real-posterr model={showDoms d}"))
+    | n :: rest =>
+      match n.toNat? with
+      | none => (st, some "FAIL nlsearch unparsed")
+      | some k =>
+        let rootP : Option (Option (List (List Int)) × List String) :=
+          match rest with
+          | "-" :: r => some (none, r)
+          | r => (pList (pList pInt) r).map (fun x => (some x.1, x.2))
+        match rootP with
+        | none => (st, some "FAIL nlsearch unparsed")
+        | some (root, rest) =>
+          match pRep pScriptEntry k rest with
+          | some (script, "::" :: "unsat" :: []) => (st, some (nlJudge st root script none))
+          | some (script, "::" :: "sat" :: vs) =>
+            match pVals vs with
+            | some a => (st, some (nlJudge st root script (some a)))
+            | none => (st, some "FAIL nlsearch unparsed")
+          | _ => (st, some "FAIL nlsearch unparsed")
+    | _ => (st, some "FAIL nlsearch unparsed")
   | "litsok" :: _ => (st, some "ok litsok")
   | "negok" :: _ => (st, some "ok negok")
   | "panic" :: _ | "nonterm" :: _ | "partial" :: _ | "bad" :: _ | "branchviolation" :: _ | "hang" :: _ =>
